@@ -20,10 +20,19 @@ var (
 
 //go:norace
 func wgIndex(p uintptr) int {
+	free := -1
 	for i := 0; i < nWG; i++ {
 		if wgPtr[i] == p {
 			return i
 		}
+		if free < 0 && wgCount[i] <= 0 {
+			free = i // a wait group whose count is back at zero needs no entry
+		}
+	}
+	if free >= 0 {
+		wgPtr[free] = p
+		wgCount[free] = 0
+		return free
 	}
 	if nWG < maxWG {
 		wgPtr[nWG] = p
@@ -31,7 +40,22 @@ func wgIndex(p uintptr) int {
 		nWG++
 		return nWG - 1
 	}
-	panic(Abort{"too many wait groups"})
+	SimLimit = "more than 32 wait groups in use at once"
+	panic(Abort{"simulator-limit"})
+}
+
+// SimLimit is set when the simulator itself runs out of a fixed resource. The
+// harness turns that into an infrastructure error (exit 2), never a violation.
+var SimLimit string
+
+//go:norace
+func wgCountOf(p uintptr) int {
+	for i := 0; i < nWG; i++ {
+		if wgPtr[i] == p {
+			return wgCount[i]
+		}
+	}
+	return 0
 }
 
 //go:norace
@@ -46,7 +70,8 @@ func allocTask() int {
 	}
 	if id < 0 {
 		if ntasks >= MaxTasks {
-			panic(Abort{"too many tasks"})
+			SimLimit = "more than 32 tasks alive at once"
+			panic(Abort{"simulator-limit"})
 		}
 		id = ntasks
 		ntasks++
@@ -62,6 +87,7 @@ func allocTask() int {
 		opLimit[id] = opLimit[parent] - taskSteps[parent]
 	}
 	Spawned++
+	trace("spawn parent/child", parent, id, 0)
 	return id
 }
 
@@ -160,7 +186,9 @@ func Drain() {
 //go:norace
 func WGAdd(wg *sync.WaitGroup, n int) {
 	if Active {
-		wgCount[wgIndex(uintptr(unsafe.Pointer(wg)))] += n
+		i := wgIndex(uintptr(unsafe.Pointer(wg)))
+		wgCount[i] += n
+		trace("wgadd task/slot/count", cur, i, wgCount[i])
 	}
 	wg.Add(n)
 }
@@ -173,6 +201,7 @@ func WGDone(wg *sync.WaitGroup) {
 	}
 	p := uintptr(unsafe.Pointer(wg))
 	i := wgIndex(p)
+	trace("wgdone task/slot/count", cur, i, wgCount[i])
 	wgCount[i]--
 	monitorRelease(cur, p)
 	wg.Done()
@@ -192,8 +221,10 @@ func WGWait(wg *sync.WaitGroup) {
 	step(0)
 	event(KAccess, 0)
 	p := uintptr(unsafe.Pointer(wg))
-	i := wgIndex(p)
-	for wgCount[i] > 0 {
+	// look the counter up by pointer every time: a slot whose count is back at
+	// zero may have been handed to another wait group while this task slept
+	for wgCountOf(p) > 0 {
+		trace("wgwait blocks task/count", cur, wgCountOf(p), 0)
 		blockOn(p, -1)
 	}
 	wg.Wait()
